@@ -50,12 +50,13 @@ CONSTANTS TagKeys,    \* sequence of tag keys, ascending (tags of a row are sort
 CONSTANT Hash(_, _)   \* Hash(salt, key sequence) \in Nat, uninterpreted
 
 VARIABLES setup,      \* the configuration under test (chosen at Init)
+          slice,      \* which part of the condition trees this behaviour enumerates (work sharing only)
           cur,        \* the condition probed last (NoCond before the first probe)
           n,          \* number of steps so far
           hist        \* exported behaviour
 
-vars == <<setup, cur, n, hist>>
-view == <<setup, cur>>
+vars == <<setup, slice, cur, n, hist>>
+view == <<setup, slice, cur>>
 
 (* setup = [type   : "hash" | "range",
             sk     : sequence of tag keys (ascending) = the shard key; <<>> = none,
@@ -133,7 +134,10 @@ GContains(g, t) == IF "group_end_inclusive" \in Dev THEN g.start <= t /\ t <= g.
                   ELSE g.start <= t /\ t < g.end
 \* RetentionPolicyInfo.ShardGroupByTimestampAndEngineType scans from the end of the list sorted by
 \* (end, start): a re-sharded group (same end, later start) hides its predecessor
-Shadowed(S, g, t) == \E h \in Groups(S) : h.end = g.end /\ h.start > g.start /\ GContains(h, t)
+\* (deviation stale_group_cache = write_helper.go:createShardGroup, which keeps the previous row's group
+\* as long as it Contains() the timestamp, hidden or not)
+Shadowed(S, g, t) == /\ "stale_group_cache" \notin Dev
+                     /\ \E h \in Groups(S) : h.end = g.end /\ h.start > g.start /\ GContains(h, t)
 Covering(S, t) == {g \in Groups(S) : GContains(g, t) /\ ~Shadowed(S, g, t)}
 
 SlotFor(S, g, r) == IF S.type = "hash" THEN Hash(S.salt, WKey(S, r)) % g.m
@@ -359,7 +363,13 @@ ProbeStep(S, c) ==
             models |-> LET Ds == SetToSeq(SUBSET ImplDevs)
                        IN [i \in 1..Len(Ds) |-> [dev |-> SetToSeq(Ds[i]), prune |-> PruneKeys(Ds[i], S, c)]]]]
 
+\* the root shapes of the enumerated trees; "small" = the trees that are operands themselves
+Slices == IF EnumAll /\ MaxLevel >= 2
+            THEN {<<"small", FALSE, FALSE>>} \cup ({"and", "or"} \X ParenTop \X ParenTop)
+            ELSE {<<"small", FALSE, FALSE>>}
+
 Init == /\ setup \in Setups
+        /\ slice \in Slices
         /\ cur = NoCond
         /\ n = 1
         /\ hist = IF Record THEN <<SetupStep(setup)>> ELSE <<>>
@@ -370,7 +380,7 @@ ProbeCond(c) ==
   /\ cur' = c
   /\ n' = n + 1
   /\ hist' = IF Record THEN Append(hist, ProbeStep(setup, c)) ELSE hist
-  /\ UNCHANGED setup
+  /\ UNCHANGED <<setup, slice>>
 
 \* export runs: the well-formed trees up to MaxLevel as one sequence, probed ChunkSize at a time so
 \* that a behaviour (Setup + one chunk) carries many conditions
@@ -381,16 +391,16 @@ CondSetP(x) ==
                                                       l \in Operands, r \in Operands}) :
      Expressible(c) /\ WellFormed(c)}
 
+\* (a constant: TLC evaluates it once; empty unless the run exports chunks)
+CondSeqC == IF ChunkSize > 0 THEN SetToSeq(CondSetP(0)) ELSE <<>>
+
 ProbeChunk ==
-  LET cs == SetToSeq(CondSetP(n))
-      nb == (Len(cs) + ChunkSize - 1) \div ChunkSize
-  IN \E b \in 1..nb :
-       LET lo == (b - 1) * ChunkSize + 1
-           hi == Imin(b * ChunkSize, Len(cs))
-       IN /\ cur' = cs[hi]
-          /\ n' = n + 1
-          /\ hist' = hist \o [i \in 1..(hi - lo + 1) |-> ProbeStep(setup, cs[lo + i - 1])]
-          /\ UNCHANGED setup
+  \E b \in 1..((Len(CondSeqC) + ChunkSize - 1) \div ChunkSize) :
+       /\ cur' = CondSeqC[Imin(b * ChunkSize, Len(CondSeqC))]
+       /\ n' = n + 1
+       /\ hist' = hist \o [i \in 1..(Imin(b * ChunkSize, Len(CondSeqC)) - (b - 1) * ChunkSize) |->
+                              ProbeStep(setup, CondSeqC[(b - 1) * ChunkSize + i])]
+       /\ UNCHANGED <<setup, slice>>
 
 \* EnumAll: every tree up to MaxLevel (nested quantifiers, so that the set is never materialised);
 \* simulation configs set EnumAll = FALSE and override SampleConds with a random sample
@@ -400,10 +410,8 @@ Next == /\ n < Depth
         /\ \/ \E c \in SampleConds(n) : ProbeCond(c)
            \/ ChunkSize > 0 /\ ProbeChunk
            \/ /\ EnumAll
-              /\ \/ \E c \in Operands : ProbeCond(c)
-                 \/ /\ MaxLevel >= 2
-                    /\ \E op \in {"and", "or"}, pl \in ParenTop, pr \in ParenTop, l \in Operands, r \in Operands :
-                           ProbeCond(Bin(op, pl, pr, l, r))
+              /\ IF slice[1] = "small" THEN \E c \in Operands : ProbeCond(c)
+                 ELSE \E l \in Operands, r \in Operands : ProbeCond(Bin(slice[1], slice[2], slice[3], l, r))
 
 Spec == Init /\ [][Next]_vars
 
@@ -419,11 +427,11 @@ UniqueCoveringShard ==
        /\ WriteRoute(setup, r)[2] \in 0..(WriteGroup(setup, r).m - 1)
 
 \* C11, read side: a row that satisfies the query lies in a consulted shard
-PruneSoundFor(dv, S, c) ==
-  LET P  == Prune(dv, S, c)
-      rt == RouteTab[S]
-      tr == TimeRange(c)
-  IN \A i \in 1..Len(RowSeq) : (rt[i] # NoRoute /\ EvalIn(tr, c, RowSeq[i])) => rt[i] \in P
+\* (written as one set inclusion: TLC does not cache LET definitions that depend on the state, so
+\* the consulted set must not be mentioned under the quantifier over rows)
+MatchingRoutes(S, c) ==
+  {RouteTab[S][i] : i \in {j \in 1..Len(RowSeq) : RouteTab[S][j] # NoRoute /\ EvalIn(TimeRange(c), c, RowSeq[j])}}
+PruneSoundFor(dv, S, c) == MatchingRoutes(S, c) \subseteq Prune(dv, S, c)
 PruneSound == cur # NoCond => PruneSoundFor(Dev, setup, cur)
 
 \* no condition and no time bound consults everything
